@@ -188,6 +188,8 @@ def run_case(c, rng, props):
                         problems.append(("C05", k, "VJP dtype %s for a float64 argument" % vja.dtype))
                     elif isinstance(x, float) and vja.shape != ():
                         problems.append(("C05", k, "VJP of a Python scalar has shape %s" % (vja.shape,)))
+                if vja.shape != xa.shape and "C04" in props:
+                    problems.append(("C04", k, "VJP has shape %s but the JVP's argument space has shape %s: it cannot be the adjoint" % (vja.shape, xa.shape)))
                 if vja.shape != xa.shape and "C01" in props:
                     problems.append(("C01", k, "VJP has shape %s, J^T g has the argument's shape %s: a wrong cotangent, silently" % (vja.shape, xa.shape)))
                 if vja.shape == xa.shape and ("C01" in props or "C09" in props):
@@ -418,6 +420,12 @@ def cases(rng, tier):
     lin("where", "arrays", (lambda m, a, b: m.where(cond, a, b)), [iarr(rng, A23), iarr(rng, A23)], (0, 1))
     lin("where", "broadcast-branch", (lambda m, a, b: m.where(cond, a, b)), [iarr(rng, (3,)), iarr(rng, (2, 1))], (0, 1))
     lin("where", "scalar-branch", (lambda m, a, b: m.where(cond, a, b)), [2.0, iarr(rng, A23)], (0, 1))
+    # the condition itself differentiated (its rule is registered as None: zero of the CONDITION's space)
+    add("where", "float condition (3,) vs (2,3) branches", (lambda m, c, a, b: m.where(c, a, b)),
+        [onp.array([1.0, -3.0, 2.0]), iarr(rng, A23), iarr(rng, A23)], [0], False, modes=("rev",))
+    add("where", "float scalar gate", (lambda m, c, a, b: m.where(c, a, b)), [1.0, iarr(rng, A23), iarr(rng, A23)], [0], False, modes=("rev",))
+    add("where", "real condition, complex branches", (lambda m, c, a, b: m.where(c, a, b)),
+        [onp.array([1.0, -3.0, 2.0]), iarr(rng, (3,), cplx=True), iarr(rng, (3,), cplx=True)], [0], False, modes=("rev",))
     lin("full", "scalar-fill", (lambda m, a: m.full((2, 3), a)), [2.0])
     lin("full", "array-fill", (lambda m, a: m.full((2, 3), a)), [iarr(rng, (3,))])
     add("clip", "inside-and-outside", (lambda m, z: m.clip(z, -0.9, 1.1)), [distinct(rng, A23)], [0], False)
@@ -433,6 +441,12 @@ def cases(rng, tier):
     add("sort", "1-D", (lambda m, z: m.sort(z)), [distinct(rng, (5,))], [0], False)
     add("sort", "2-D", (lambda m, z: m.sort(z, axis=-1)), [distinct(rng, A23)], [0], False)
     add("partition", "1-D", (lambda m, z: m.partition(z, 2)), [distinct(rng, (5,))], [0], False)
+    # the same shape along different axes one after the other (a rule that caches per shape must not leak between them)
+    for sh in ((3, 4), (2, 3, 2)):
+        for ax in list(range(len(sh))) + [-1, None] + list(range(len(sh))):
+            add("sort", "shape=%s axis=%s" % (sh, ax), (lambda m, z, ax=ax: m.sort(z, axis=ax)), [distinct(rng, sh)], [0], False)
+            add("partition", "shape=%s axis=%s" % (sh, ax), (lambda m, z, ax=ax: m.partition(z, 1, axis=ax)), [distinct(rng, sh)], [0], False)
+    add("sort", "composed axes", (lambda m, z: m.sort(m.sort(z, axis=0), axis=1)), [distinct(rng, (3, 4))], [0], False)
     lin("select", "two-branches", (lambda m, a, b: m.select([cond, ~cond], [a, b])), [iarr(rng, A23), iarr(rng, A23)], (0, 1))
     # indexing (also C11)
     idxs = [("int", 1), ("neg-int", -1), ("slice", slice(0, 2)), ("step-slice", slice(None, None, -2)), ("tuple", (1, slice(None))),
@@ -469,7 +483,10 @@ def cases(rng, tier):
         lin("kron", tag, (lambda m, a, b: m.kron(a, b)), [iarr(rng, s1), iarr(rng, s2)], (0, 1))
     es = [("ij,jk->ik", (2, 3), (3, 2)), ("ij,ij->", (2, 3), (2, 3)), ("i,i->i", (3,), (3,)), ("ij->ji", (2, 3), None),
           ("ii->i", (3, 3), None), ("ij->", (2, 3), None), ("...ij,jk->...ik", (2, 2, 3), (3, 2)), ("ij,kj->ik", (2, 3), (4, 3)),
-          ("i,j->ij", (2,), (3,)), ("ijk,k->ij", (2, 3, 2), (2,)), ("ij,j", (2, 3), (3,))]
+          ("i,j->ij", (2,), (3,)), ("ijk,k->ij", (2, 3, 2), (2,)), ("ij,j", (2, 3), (3,)),
+          # named axes of length 1 are stretched by einsum too (no ellipsis involved)
+          ("bi,bi->b", (1, 3), (5, 3)), ("bi,bi->b", (5, 3), (1, 3)), ("ij,ij->ij", (2, 1), (2, 3)), ("ij,jk->ik", (2, 1), (3, 2)),
+          ("i,i->", (1,), (4,)), ("ab,ab->a", (3, 1), (1, 4)), ("...i,...i->...", (1, 3), (5, 3)), ("bi,bi", (1, 3), (5, 3))]
     for sub, s1, s2 in es:
         if s2 is None:
             lin("einsum", sub, (lambda m, a, sub=sub: m.einsum(sub, a)), [iarr(rng, s1)])
@@ -481,7 +498,13 @@ def cases(rng, tier):
            ((2, 3), [0, E, 1], (3, 5, 4), [1, E, 2], [0, E, 2]), ((2, 3), [0, 1, E], (3, 4, 5), [1, 2, E], [0, 2, E]),
            ((2, 3), [0, 1, E], (3, 4, 5, 6), [1, 2, E], [0, 2, E]), ((2, 3), [0, E, 1], (3, 5, 6, 4), [1, E, 2], [0, E, 2]),
            ((2, 3), [E, 0, 1], (5, 6, 3, 4), [E, 1, 2], [E, 0, 2]), ((5, 2, 3), [E, 0, 1], (3, 4), [E, 1, 2], [E, 0, 2]),
-           ((2, 5, 3), [0, E, 1], (3, 4), [1, E, 2], [0, E, 2]), ((3,), [0], (3,), [0], []), ((2, 3), [0, 1], None, None, [1, 0])]
+           ((2, 5, 3), [0, E, 1], (3, 4), [1, E, 2], [0, E, 2]), ((3,), [0], (3,), [0], []), ((2, 3), [0, 1], None, None, [1, 0]),
+           # all extents equal, so that a reduction over the wrong axes keeps the right shape
+           ((2, 2), [0, 1, E], (3, 2, 2, 5), [2, 0, E], [2, 1, E]), ((2, 2), [0, 1, E], (2, 2, 2, 2, 2), [2, 0, E], [2, 1, E]),
+           ((2, 2), [E, 0, 1], (2, 2, 2, 2), [E, 1, 2], [E, 0, 2]), ((2, 2), [0, E, 1], (2, 2, 2, 2), [1, E, 2], [0, E, 2]),
+           ((2, 2, 2), [0, 1, E], (2, 2, 2, 2, 2), [2, 0, E], [2, 1, E]),
+           # named axes of length 1 in the operand form
+           ((2, 1), [0, 1], (3, 2), [1, 2], [0, 2]), ((1, 3), [0, 1], (5, 3), [0, 1], [0])]
     for s1, l1, s2, l2, lo in esl:
         tag = "sublist %s,%s->%s shapes=%s,%s" % (str(l1).replace("Ellipsis", "..."), str(l2).replace("Ellipsis", "..."),
                                                 str(lo).replace("Ellipsis", "..."), s1, s2)
@@ -514,14 +537,26 @@ def cases(rng, tier):
                          ("nuc", (1, 0), (2, 3, 2)), ("nuc", (2, 1), (2, 3, 2)), ("nuc", (-1, 0), (2, 3, 2)), ("nuc", (-1, -3), (2, 3, 2)),
                          ("nuc", (3, 1), (2, 3, 2, 3)), ("nuc", (2, 0), (2, 3, 2, 3)), ("nuc", (0, 3), (2, 3, 2, 3)),
                          ("fro", (2, 0), (2, 3, 2)), ("fro", (1, 2), (2, 3, 2)), (None, (2, 0), (2, 3, 2)), (None, (3, 1), (2, 3, 2, 3)),
-                         (3, 1, (2, 3, 2)), (2.5, -1, (2, 3, 2)), (4, 0, (2, 3, 2)), (None, 2, (2, 3, 2))):
+                         (3, 1, (2, 3, 2)), (2.5, -1, (2, 3, 2)), (4, 0, (2, 3, 2)), (None, 2, (2, 3, 2)),
+                         # square and cubic inputs, where a mis-aligned broadcast of the norm would go unnoticed by shape
+                         (3, 0, (3, 3)), (3, 1, (3, 3)), (3, -1, (3, 3)), (4, 1, (3, 3, 3)), (2.5, 0, (3, 3, 3)), (3, 2, (3, 3, 3)),
+                         (None, 1, (3, 3)), (2, -1, (3, 3, 3))):
         add("linalg.norm", "ord=%s axis=%s shape=%s" % (ordv, ax, sh), (lambda m, a, ordv=ordv, ax=ax: m.linalg.norm(a, ordv, ax)), [distinct(rng, sh)], [0], False)
     # ---- fft (complex-linear: exact) ----
     for name, sh, kw in (("fft", (4,), {}), ("ifft", (4,), {}), ("fft", (2, 4), {"axis": 0}), ("fft2", (2, 4), {}),
                          ("ifft2", (2, 4), {}), ("fftn", (2, 2, 2), {}), ("ifftn", (2, 2), {}), ("rfft", (4,), {}), ("irfft", (3,), {}),
                          ("fft", (4,), {"n": 6}), ("fft", (4,), {"n": 3}), ("fft", (4,), {"norm": "ortho"}),
                          ("rfft", (4,), {"norm": "ortho"}), ("fftshift", (5,), {}), ("ifftshift", (4,), {}),
-                         ("rfft2", (2, 4), {}), ("rfftn", (2, 4), {})):
+                         ("rfft2", (2, 4), {}), ("rfftn", (2, 4), {}),
+                         # explicit (odd / even, longer / shorter) lengths and non-default axes: raise or be right
+                         ("rfft", (4,), {"n": 5}), ("rfft", (6,), {"n": 3}), ("rfft", (4,), {"n": 6}), ("rfft", (5,), {"n": 4}),
+                         ("irfft", (3,), {"n": 5}), ("irfft", (3,), {"n": 4}), ("irfft", (4,), {"n": 6}),
+                         ("rfftn", (4, 4), {"s": (4, 3)}), ("rfftn", (4, 4), {"s": (3, 4)}), ("rfft2", (4, 4), {"s": (3, 3)}),
+                         ("rfft2", (4, 4), {"s": (6, 4)}), ("irfftn", (4, 3), {"s": (4, 5)}), ("irfft2", (4, 3), {"s": (4, 4)}),
+                         ("rfft", (3, 4), {"axis": 0}), ("rfft", (4, 3), {"axis": 0}), ("rfftn", (4, 3), {"axes": (1, 0)}),
+                         ("rfftn", (3, 4), {"axes": (1, 0)}), ("rfft2", (2, 3, 4), {"axes": (2, 1)}), ("rfft2", (2, 4, 3), {"axes": (2, 1)}),
+                         ("irfft", (3, 4), {"axis": 0}), ("fft", (3, 4), {"axis": 0, "n": 5}), ("ifft", (4,), {"n": 6, "norm": "forward"}),
+                         ("fftn", (2, 4), {"s": (3, 5)}), ("fft2", (4, 4), {"axes": (1, 0)}), ("ifftn", (2, 4), {"axes": (1,)})):
         add("fft." + name, "shape=%s %s" % (sh, kw), (lambda m, a, name=name, kw=kw: getattr(m.fft, name)(a, **kw)), [distinct(rng, sh)], [0], False)
     return out
 
